@@ -56,6 +56,7 @@ fn concurrent_ride_along(tape: &mut Tape, ctx: &RunCtx) -> RunOut {
         preexisting: true,
         clock_small: true,
         sampled_faults: false,
+        debris: true,
     };
     let run = run_conc(tape, &cfg, ctx.detail);
     let mut out = RunOut::default();
